@@ -15,7 +15,7 @@ type SimCache struct {
 	mu      sync.Mutex // protects ents map structure only (entries are pre-created where known)
 	ents    map[string]*cacheEnt
 	pre     map[string]*cacheEnt // frozen copy, read-only during a run
-	PanicOn string // url whose Get panics ("" = none)
+	PanicOn string               // url whose Get panics ("" = none)
 	PanicV  any
 }
 
@@ -23,8 +23,8 @@ type cacheEnt struct {
 	mu     sync.Mutex
 	bundle *corecrl.Bundle
 	// fault plan: consumed in order per call
-	GetPlan []int // per Get call: 0 normal, 1 error, 2 forced miss
-	SetPlan []int // per Set call: 0 normal, 1 error, 2 lost (ack, not stored)
+	GetPlan []int       // per Get call: 0 normal, 1 error, 2 forced miss
+	SetPlan []int       // per Set call: 0 normal, 1 error, 2 lost (ack, not stored)
 	gets    map[int]int // per caller: fault plans are consumed per caller so that
 	sets    map[int]int // the outcome does not depend on which caller arrives first
 	Ops     []CacheOp
